@@ -1132,6 +1132,73 @@ def tx_inverse(repo):
     return dense, diag, matvec
 
 
+# ----------------------------------------------------------------------------- the operator of the omega branch
+def tx_omega_operator(repo):
+    """optimize_mps, `if omega is not None:` -- the operator whose two layers are contracted, as an expression in the GIVEN mpo"""
+    gs = ast.parse(open(repo + "/renormalizer/mps/gs.py").read())
+    f = find_func(gs, "optimize_mps")
+    br = [st for st in strip_doc(f.body) if isinstance(st, ast.If) and ast.unparse(st.test) == "omega is not None"]
+    if len(br) != 1:
+        fail("optimize_mps: omega branch", f)
+    env = {"mpo": "OGiven"}
+
+    def coef(n):
+        t = ast.unparse(n)
+        if t == "-omega":
+            return "CNegOmega"
+        if t == "omega":
+            return "COmega"
+        fail("omega branch: coefficient %s" % t, n)
+
+    def ev(n):
+        if isinstance(n, ast.Name):
+            if n.id not in env:
+                fail("omega branch: unbound %s" % n.id, n)
+            return env[n.id]
+        if isinstance(n, ast.Call):
+            fn = ast.unparse(n.func)
+            if fn == "Mpo.identity" and [ast.unparse(a) for a in n.args] == ["mpo.model"] and not n.keywords and env["mpo"] == "OGiven":
+                return "OIdentity"
+            if isinstance(n.func, ast.Attribute) and n.func.attr == "scale" and len(n.args) == 1 and not n.keywords:
+                return "(OScale %s %s)" % (coef(n.args[0]), ev(n.func.value))
+            if isinstance(n.func, ast.Attribute) and n.func.attr == "add" and len(n.args) == 1 and not n.keywords:
+                return "(OAdd %s %s)" % (ev(n.func.value), ev(n.args[0]))
+            if fn == "Mpo" and len(n.args) >= 1 and ast.unparse(n.args[0]) == "mpo.model":
+                # rebuilt from the model of the given operator: does not depend on the given operator
+                kw = {k.arg: k.value for k in n.keywords}
+                if len(n.args) == 1 and set(kw) <= {"offset"}:
+                    off = kw.get("offset")
+                    if off is None:
+                        return "(OModel CZero)"
+                    if isinstance(off, ast.Call) and ast.unparse(off.func) == "Quantity" and len(off.args) == 1:
+                        return "(OModel %s)" % coef(off.args[0])
+            fail("omega branch: operator expression %s" % ast.unparse(n), n)
+        fail("omega branch: operator expression %s" % ast.unparse(n), n)
+    seen_env = False
+    for st in br[0].body:
+        if isinstance(st, ast.If) and "StackedMpo" in ast.unparse(st.test):
+            continue
+        if isinstance(st, ast.Assign) and len(st.targets) == 1 and isinstance(st.targets[0], ast.Name):
+            nm = st.targets[0].id
+            if nm == "environ":
+                if ast.unparse(st.value) != "Environ(mps, [mpo, mpo], env)":
+                    fail("omega branch: environments are not built from two layers of the shifted operator", st)
+                seen_env = True
+                continue
+            if seen_env:
+                fail("omega branch: assignment after the environments", st)
+            env[nm] = ev(st.value)
+            continue
+        fail("omega branch: statement %s" % ast.unparse(st)[:60], st)
+    if not seen_env:
+        fail("omega branch: no Environ", br[0])
+    # single_sweep hands [mpo, mpo] of the SAME (returned) operator to GetLR
+    ss = find_func(gs, "single_sweep")
+    if "operator = [mpo, mpo]" not in [ast.unparse(x) for x in ast.walk(ss) if isinstance(x, ast.Assign)]:
+        fail("single_sweep: two-layer operator", ss)
+    return env["mpo"]
+
+
 # ----------------------------------------------------------------------------- rendering
 def render(d):
     o = []
@@ -1189,6 +1256,12 @@ def render(d):
     a("Definition chain_iter_solvers : list (String.string * selector) := [%s]." % "; ".join('("%s"%%string, %s)' % x for x in d["solvers"][1]))
     a("Definition chain_direct_solver : selector := %s." % d["solvers"][2])
     a("")
+    a("(* gs.py optimize_mps, omega branch: the operator whose two layers are contracted, as an expression in the operator that was GIVEN")
+    a("   (OGiven); OModel c: an MPO rebuilt from the model of the given operator with offset c -- independent of the given operator *)")
+    a("Inductive ocoef := CNegOmega | COmega | CZero.")
+    a("Inductive opexpr := OGiven | OIdentity | OScale (c : ocoef) (e : opexpr) | OAdd (a b : opexpr) | OModel (offset : ocoef).")
+    a("Definition omega_shifted_operator : opexpr := %s." % d["omega_op"])
+    a("")
     a("(* mp.py _update_mps: the site index handed to compress_config.compute_m_trunc(sigma, idx, self.to_right) in the single-state and the")
     a("   state-averaged branch; utils/configs.py _fixed_m_trunc: the bond whose limit max_dims[bond] is read (bond k = left of site k) *)")
     a("Definition mtrunc_idx_single (to_right : bool) (cidx : list Z) : Z := %s." % d["mtrunc"][0])
@@ -1228,6 +1301,7 @@ def main(repo="/repo"):
     d["solvers"] = tx_solvers(repo)
     d["mtrunc"] = tx_mtrunc(repo)
     d["inverse"] = tx_inverse(repo)
+    d["omega_op"] = tx_omega_operator(repo)
     # Mps.__setitem__ must delegate to MatrixProduct.__setitem__ (the event hook sits there)
     mpsmod = ast.parse(open(base + "mps.py").read())
     si = find_func(find_class(mpsmod, "Mps"), "__setitem__")
